@@ -647,7 +647,7 @@ def _main(ctx, args):
     cov = {
         "obligations": aud["obligations"],
         "discharged": aud["discharged"],
-        "checker_cmd": "cd lean && lake build " + " ".join(mod.LEAN_MODULES) + " && lake env lean <#print axioms of each theorem>" + (" && lake env leanchecker " + " ".join(mod.LEAN_MODULES) if tier == "thorough" else ""),
+        "checker_cmd": "cd lean && lake build " + " ".join(list(mod.LEAN_MODULES) + xl_mods) + " && lake env lean <#print axioms of each theorem>" + (" && lake env leanchecker " + " ".join(list(mod.LEAN_MODULES) + xl_mods) if tier == "thorough" else ""),
         "trusted_base": ["Lean 4.33.0 kernel", "axioms used: " + (", ".join(aud["axioms"]) or "none"),
                          "harness/core.py + harness/%s.py (correspondence check, generators, canonicalisers)" % mod.__name__.split(".")[-1],
                          "lean/Driver (line parser)"] + list(mod.TRUSTED) + (list(XR.TRUSTED) if xl else []),
